@@ -89,6 +89,13 @@ def cases(rng, tier):
         for cont in ("list", "ndarray"):
             yield ("setter", {"nmaps": len(init), "init": [frac(x) for x in init], "hist": [[frac(x) for x in h] for h in hist], "gate": None,
                               "container": cont, "always_oracle": True})
+    # whole-number coefficient vectors typed as Python ints / integer arrays
+    for init, hist in (([Fraction(1), Fraction(1), Fraction(-1)], [[Fraction(2), Fraction(-1), Fraction(3)]]),
+                       ([Fraction(1), Fraction(1), Fraction(1), Fraction(-1), Fraction(1), Fraction(-1)], [[Fraction(1)] * 6]),
+                       ([Fraction(2), Fraction(-1)], [[Fraction(1), Fraction(1)], [Fraction(3), Fraction(-5)]])):
+        for cont in ("ints", "intarray"):
+            yield ("setter", {"nmaps": len(init), "init": [frac(x) for x in init], "hist": [[frac(x) for x in h] for h in hist], "gate": None,
+                              "container": cont, "always_oracle": True})
     for name in c02.FAMS:
         for th in gen.SPECIAL_ANGLES + [rng.uniform(-8 * math.pi, 8 * math.pi) for _ in range(reps)]:
             yield ("kappa", {"gate": name, "params": [th]})
@@ -173,6 +180,9 @@ def run_real(kind, payload):
     if kind == "setter":
         def box(vals):
             cont = payload.get("container", "list")
+            if cont in ("ints", "intarray") and all(float(v).is_integer() for v in vals):
+                iv = [int(v) for v in vals]   # whole-number coefficients typed as integers
+                return np.array(iv) if cont == "intarray" else iv
             return tuple(vals) if cont == "tuple" else (np.array(vals, dtype=float) if cont == "ndarray" else list(vals))
         if payload["gate"] is None:
             maps = [([XGate()],) for _ in range(payload["nmaps"])]
@@ -204,6 +214,13 @@ def run_real(kind, payload):
             c = list(c)
             c[payload["idx"] % len(c)] = payload["val"]
         b1.coeffs = c
+        st1 = _state(b1)
+        k1 = sum(abs(x) for x in st1["coeffs"])
+        if (abs(st1["kappa"] - k1) > 1e-12 * max(1, k1) or abs(st1["overhead"] - k1 * k1) > 1e-9 * max(1, k1 * k1)
+                or (k1 > 0 and any(abs(p_ - abs(x) / k1) > 1e-12 for p_, x in zip(st1["probs"], st1["coeffs"])))):
+            # the edited-and-reassigned basis must describe the vector it now holds
+            return {"ok": dict(_state(_basis(payload)), kappa=float("nan")),
+                    "note": f"after an in-place edit and reassignment: coeffs {st1['coeffs']} but kappa {st1['kappa']}, probabilities {st1['probs']}"}
         b2 = _basis(payload)
         return {"ok": _state(b2)}
     if kind == "local":
@@ -262,6 +279,8 @@ def _cmp_state(r, m, tol, exact=False):
 
 
 def compare(kind, payload, real, model):
+    if isinstance(real, dict) and real.get("note"):
+        return real["note"]
     if "error" in real or "error" in model:
         return None if real == model else f"real={str(real)[:200]} model={str(model)[:200]}"
     if kind == "setter":
@@ -298,6 +317,8 @@ def nontrivial_key(kind, payload):
 
 def oracle(kind, payload):
     real = call_real(lambda p: run_real(kind, p), payload)
+    if real.get("note"):
+        return real["note"]
     if "error" in real:
         if kind == "doc" and CLASS_TO_NAME.get(payload["cls"]) is None:
             return f"documentation lists an unknown instruction {payload['cls']}"
